@@ -50,7 +50,7 @@ pub fn run(opts: &HashMap<String, String>) -> i32 {
     let scan: u32 = opt(opts, "scan", 0);
     SCAN_MODE.with(|c| c.set(scan));
     trace::open(&out);
-    trace::install_hooks("p");
+    trace::install_hooks("pf");
     for id in first..first + count {
         one_history(id, seed, max_ops, max_len, panics);
     }
